@@ -3,10 +3,12 @@
 package main
 
 import (
+	"runtime"
 	"sort"
 	"strconv"
 	"strings"
 	"sync"
+	"sync/atomic"
 	"time"
 
 	"github.com/influxdata/influxdb/v2/kit/platform"
@@ -172,14 +174,20 @@ func (r *runner) Op(t []string) string {
 			return "bad-op"
 		}
 		res := make([][]uint64, n)
-		start := make(chan struct{})
+		var ready int32
 		var wg sync.WaitGroup
 		for g := 0; g < n; g++ {
 			wg.Add(1)
 			go func(g int) {
 				defer wg.Done()
 				mine := make([]uint64, 0, k)
-				<-start
+				// spin barrier: all callers enter their loops together
+				atomic.AddInt32(&ready, 1)
+				for spins := 0; atomic.LoadInt32(&ready) < int32(n); spins++ {
+					if spins > 1000 {
+						runtime.Gosched()
+					}
+				}
 				for i := 0; i < k; i++ {
 					if g%2 == 0 {
 						mine = append(mine, r.gen.Next())
@@ -190,7 +198,6 @@ func (r *runner) Op(t []string) string {
 				res[g] = mine
 			}(g)
 		}
-		close(start)
 		wg.Wait()
 		var all []uint64
 		for _, m := range res {
@@ -392,29 +399,36 @@ func gen(r *h.Rand, tier string, emit func([]string)) {
 		emit(ops)
 	}
 	// --- generator under the real clock (model does not predict the values), sequential + concurrent
-	for c := 0; c < 30*scale; c++ {
+	concOp := func() string {
+		n := 2 + r.Intn(15)
+		total := 2000 + r.Intn(18000)
+		if r.Chance(0.2) {
+			total = 2 + r.Intn(200)
+		}
+		return "conc " + strconv.Itoa(n) + " " + strconv.Itoa(1+total/n)
+	}
+	for c := 0; c < 14*scale; c++ {
 		var ops []string
 		mid := int64(r.Intn(1024))
 		ops = append(ops, "new "+strconv.FormatInt(mid, 10))
 		if r.Chance(0.5) {
 			ops = append(ops, "fresh") // from state 0: the first id carries the current millisecond
 		}
-		steps := 2 + r.Intn(4)
+		steps := 2 + r.Intn(3)
 		for i := 0; i < steps; i++ {
-			switch r.Intn(3) {
+			switch r.Intn(4) {
 			case 0:
 				ops = append(ops, "next "+strconv.Itoa(1+r.Intn(400)))
 			case 1:
 				ops = append(ops, "gid "+strconv.Itoa(1+r.Intn(100)))
 			default:
-				n := 2 + r.Intn(15)
-				ops = append(ops, "conc "+strconv.Itoa(n)+" "+strconv.Itoa(1+r.Intn(1200/n)))
+				ops = append(ops, concOp())
 			}
 		}
 		emit(ops)
 	}
 	// --- concurrent callers on a state ahead of the clock: the set of returned ids is predicted exactly
-	for c := 0; c < 30*scale; c++ {
+	for c := 0; c < 14*scale; c++ {
 		var ops []string
 		mid := int64(r.Intn(1024))
 		ops = append(ops, "new "+strconv.FormatInt(mid, 10))
@@ -424,9 +438,8 @@ func gen(r *h.Rand, tier string, emit func([]string)) {
 			seq = 4095 - uint64(r.Intn(200))
 		}
 		ops = append(ops, "set "+strconv.FormatUint(tf<<timeShift|seq, 10))
-		for i := 0; i < 1+r.Intn(3); i++ {
-			n := 2 + r.Intn(15)
-			ops = append(ops, "conc "+strconv.Itoa(n)+" "+strconv.Itoa(1+r.Intn(1000/n)))
+		for i := 0; i < 1+r.Intn(2); i++ {
+			ops = append(ops, concOp())
 			if r.Bool() {
 				ops = append(ops, "state")
 			}
